@@ -87,10 +87,19 @@ async fn handle_connection(
             // handler set its own; no response query buffer either way.
             let echo = crate::message::response_echo_query(&resp, view.query);
             if let Some(dur) = write_timeout {
-                timeout(dur, write_view_response(&mut writer, &resp, echo))
-                    .await
-                    .ok();
-                timeout(dur, writer.flush()).await.ok();
+                // A write that timed out may have put part of this frame on the
+                // wire; writing the next response after it would leave the peer
+                // unable to find a frame boundary again. End the connection.
+                let wrote = timeout(dur, async {
+                    write_view_response(&mut writer, &resp, echo).await?;
+                    writer.flush().await?;
+                    Ok::<(), RepeError>(())
+                })
+                .await;
+                match wrote {
+                    Ok(result) => result?,
+                    Err(_) => return Ok(()),
+                }
             } else {
                 write_view_response(&mut writer, &resp, echo).await?;
                 writer.flush().await?;
